@@ -237,7 +237,7 @@ def build_tu(vu, work, canary=None):
                                            sig=kv.get("sig"))
                 elif kind == "block":
                     e = X.extract_block(path, text, kv["start"], kv["end"], kv["head"],
-                                        include_end=kv.get("include_end", "1") == "1")
+                                        include_end=kv.get("include_end", "1") == "1", tail=kv.get("tail", ""))
                     e.qualname = "block:" + pos[0]
                 else:
                     e = X.Extracted(path, "file:" + pos[0], text, 1, (0, len(text)))
@@ -245,8 +245,11 @@ def build_tu(vu, work, canary=None):
                     e.body_off = 0
                 if canary and not canary_applied and canary["target"] == e.qualname.replace("file:", "") or \
                         (canary and not canary_applied and canary["target"] == pos[-1] and kind == "whole"):
-                    e.text = apply_canary(e.text, canary, e.qualname)
-                    canary_applied = True
+                    # several extracts may bear the target's name (two blocks of one file, overloads): the canary goes to
+                    # the first one its pattern matches
+                    if re.search(canary["from"], e.text):
+                        e.text = apply_canary(e.text, canary, e.qualname)
+                        canary_applied = True
                 sha = hashlib.sha256(e.text.encode()).hexdigest()[:16]
                 if "rename" in kv:
                     X.rule_rename(e, kv["rename"])
